@@ -109,6 +109,9 @@ class InMemorySemantivaTransport(SemantivaTransport):
         self._queues: Dict[str, tuple[deque, threading.Lock]] = defaultdict(
             lambda: (deque(), threading.Lock())
         )
+        # Guards lazy creation of a channel's (deque, lock) entry: without it two
+        # first publishers can each create an entry and one message is lost.
+        self._queues_lock = threading.Lock()
         self._connected = False
 
     def connect(self) -> None:
@@ -148,7 +151,8 @@ class InMemorySemantivaTransport(SemantivaTransport):
         Returns:
             Future if require_ack=True, else None.
         """
-        q, lock = self._queues[channel]
+        with self._queues_lock:
+            q, lock = self._queues[channel]
         msg = Message(
             data=data,
             context=context,
